@@ -161,3 +161,130 @@ def run_jobs(jobs):
                 r["verdict"] = "diff" if r["diffs"] else "equal"
         out.append(r)
     return out
+
+
+# ---------- C11: the two-step (partial) link, executed on samples ----------
+
+def two_step(case, ji_normal, ji_partial, seed):
+    """link the ordinary script in one step and the partial scripts in two steps over the same objects;
+    -> (status, failures): every marker must end up in the same segment and in the same relative order"""
+    why, job = prepare(case, ji_normal, seed)
+    if why:
+        return "skip:" + why, []
+    if props.outcome(ji_partial)[0] != "ok":
+        return "skip:partial-generation-failed", []
+    gp = ji_partial["gen"]["ok"]
+    main_text = gp["main"]["script"]
+    try:
+        main_ast = sp.parse_script(main_text)
+    except sp.ParseError:
+        return "skip:unparsed", []
+    pobjs = [p for p, *_ in ldlink.inputs_of(main_ast)]
+    if not pobjs or not all(ldlink.safe_path(p) for p in pobjs):
+        return "skip:unsafe-partial-path", []
+    # a file listed in two segments (or one linker-offset name used by two) is defined by two partial objects:
+    # the two-step link then fails by construction of partial linking, whatever slinky emits
+    seen_files, seen_syms = {}, {}
+    for name, w in gp.get("subs", []):
+        try:
+            sast = sp.parse_script(w["script"])
+        except sp.ParseError:
+            return "skip:unparsed", []
+        for p_, m_, *_ in ldlink.inputs_of(sast):
+            if seen_files.setdefault((p_, m_), name) != name:
+                return "skip:file-listed-in-two-segments", []
+        for s_, ctx in sp.walk(sast):
+            if s_["k"] == "assign" and seen_syms.setdefault(s_["sym"], name) != name:
+                return "skip:symbol-defined-by-two-partial-scripts", []
+    root = tempfile.mkdtemp(prefix="lk2_", dir=os.path.join(run.BUILD, "scratch"))
+    try:
+        ok, log, archives = ldlink.materialise(job["universe"], root)
+        if not ok:
+            return "skip:asm-fail", []
+        order = []
+        for path, member in job["universe"].order:
+            if path not in order:
+                order.append(path)
+        rc, out = ldlink.link(root, job["text"], archives, extra_args=["--no-check-sections"], file_order=order,
+                              out="one.elf", script_name="one.ld")
+        if rc != 0:
+            return "skip:one-step-link-fails", []
+        syms1, secs1 = ldlink.read_image(root, "one.elf")
+        sect1 = ldlink.symbol_sections(root, "one.elf")
+        # step 1: one relocatable object per segment
+        subs = gp.get("subs", [])
+        seen = sorted(set(pobjs), key=pobjs.index)
+        if len(seen) != len(subs):
+            return "skip:partial-objects-vs-subscripts", []
+        for (name, w), pobj in zip(subs, seen):
+            os.makedirs(os.path.dirname(os.path.join(root, pobj)) or root, exist_ok=True)
+            with open(os.path.join(root, "sub_%s.ld" % name), "w") as f:
+                f.write(w["script"])
+            cmd = ["ld", "-m", "elf_i386", "-r", "-o", pobj]
+            try:
+                mine = []
+                for p_, *_ in ldlink.inputs_of(sp.parse_script(w["script"])):
+                    if p_ not in mine:
+                        mine.append(p_)
+            except sp.ParseError:
+                return "skip:unparsed", []
+            for f_ in mine:
+                if f_ in archives:
+                    cmd.extend(["--whole-archive", f_, "--no-whole-archive"])
+                else:
+                    cmd.append(f_)
+            cmd.extend(["-T", "sub_%s.ld" % name])
+            rc, out = ldlink._run(cmd, root)
+            if rc != 0 and "no input files" in out:
+                return "skip:segment-without-input-files", []
+            if rc != 0:
+                return "fail", ["relocatable link of the partial script of segment %s fails: %s" % (name, out[:300])]
+        # step 2: the main script over the partial objects
+        rc, out = ldlink.link(root, main_text, {}, extra_args=["--no-check-sections"], file_order=[],
+                              out="two.elf", script_name="main.ld")
+        if rc != 0:
+            return "fail", ["final link of the main partial script fails: %s" % out[:300]]
+        syms2, secs2 = ldlink.read_image(root, "two.elf")
+        sect2 = ldlink.symbol_sections(root, "two.elf")
+    finally:
+        shutil.rmtree(root, ignore_errors=True)
+    fails = []
+    # (common symbols stay unallocated in a relocatable link and GNU ld allocates the commons of one file in an
+    #  order of its own: they are compared for their output section only, not for relative order)
+    markers = [s["marker"] for k in job["universe"].order for s in job["universe"].objects[k]
+               if s["marker"] and s["size"] > 0]      # (the symbol of an empty section has no section of its own)
+    commons = set(s["marker"] for k in job["universe"].order for s in job["universe"].objects[k] if s["name"] == "COMMON")
+    per1, per2 = {}, {}
+    for m in markers:
+        if m in commons:
+            continue
+        a1, a2 = syms1.get(m), syms2.get(m)
+        if (a1 is None) != (a2 is None):
+            fails.append("input section %s is %s in the one-step link but %s in the two-step link"
+                         % (m, "kept" if a1 is not None else "dropped", "kept" if a2 is not None else "dropped"))
+            continue
+        if a1 is None:
+            continue
+        s1, s2 = sect1.get(m), sect2.get(m)
+        if s1 != s2:
+            fails.append("input section %s lies in output section %s after the one-step link and in %s after the "
+                         "two-step link" % (m, s1, s2))
+            continue
+        if m in commons:
+            continue
+        per1.setdefault(s1, []).append((a1, m))
+        per2.setdefault(s1, []).append((a2, m))
+    for sname in per1:
+        r1 = {m: a for a, m in per1[sname]}
+        r2 = {m: a for a, m in per2[sname]}
+        ms = sorted(r1, key=lambda m: r1[m])
+        for i in range(len(ms)):
+            for k in range(i + 1, len(ms)):
+                x, y = ms[i], ms[k]
+                if r1[x] < r1[y] and r2[x] > r2[y]:
+                    fails.append("output section %s: %s precedes %s in the one-step link but follows it in the "
+                                 "two-step link" % (sname, x, y))
+                    break
+            if fails:
+                break
+    return ("fail" if fails else "ok"), fails[:4]
